@@ -1008,6 +1008,16 @@ def E9(m, R):
     for p, env in ps:
         if p[-1].kind != 'return':
             continue
+        # `A and settings` decided false on a path on which A is (later) decided true: the settings are empty on that path (the parameters
+        # are never rebound)
+        if env.get(settings) is None and not any(isinstance(x, ast.Name) and isinstance(x.ctx, ast.Store) and x.id in (settings, f.params[1] if len(f.params) > 1 else '')
+                                                 for x in f.walk()):
+            for nd in p:
+                if nd.kind == 'test' and isinstance(nd.test, ast.BoolOp) and isinstance(nd.test.op, ast.And) and env.get(norm(nd.test)) is False:
+                    unknown = [c_ for c_ in nd.test.values if env.get(norm(c_)) is not True]
+                    if len(unknown) == 1 and norm(unknown[0]) == settings:
+                        env = dict(env)
+                        env[settings] = False
         may_have = env.get(settings) is not False
         w = env.get('#wrapped')
         kinds = [norm(nd.test.args[1]) for nd in p if nd.kind == 'test' and call_name(nd.test) == 'isinstance' and env.get(norm(nd.test)) is True]
